@@ -18,8 +18,8 @@ LEVEL = "fault_enumeration"
 
 ALPHABET = {
     "nr_exp": [2, 3, 4, 5], "ntheta_exp": [-1, 2, 3, 4, 5, 6], "aniso": [0, 1, 2, 3, 4, 5], "div2": [0, 1], "R0": [1e-5, 0.1], "Rmax": [1.3, 1.0, 2.5], "dirbc": [0, 1],
-    "fmg": [0, 1], "fmg_it": [0, 1, 2, 3], "fmg_cycle": [0, 1, 2], "extr": [0, 1, 2, 3], "maxlev": [-1, 1, 2, 3, 10], "pre": [0, 1, 2],
-    "post": [0, 1, 2], "cycle": [0, 1, 2], "maxit": [0, 1, 2, 150], "norm": [0, 1, 2], "abstol": [-1.0, 0.0, 1e-8, 1e-3],
+    "fmg": [0, 1], "fmg_it": [-1, 0, 1, 2, 3], "fmg_cycle": [0, 1, 2], "extr": [0, 1, 2, 3], "maxlev": [-1, 1, 2, 3, 10], "pre": [-1, 0, 1, 2],
+    "post": [0, 1, 2], "cycle": [0, 1, 2], "maxit": [-1, 0, 1, 2, 150], "norm": [0, 1, 2], "abstol": [-1.0, 0.0, 1e-8, 1e-3],
     "reltol": [-1.0, 0.0, 1e-8, 1e-3], "threads": [1, 2, 4, 16], "tfactor": [1.0, 0.5, 0.1], "strat": [0, 1], "cc": [0, 1], "cg": [0, 1],
     "exact": [0, 1], "verbose": [0, 1, 2], "paraview": [0, 1], "gridfile": [0, 1, 2, 3, 4, 5, 6], "ajump": [0.0, 0.858], "problem": ["g0p0a1b0", "g1p2a2b1", "g2p1a3b0", "g3p2a3b1", "g2p3a3b1", "g0p2a0b0"],
 }
@@ -170,7 +170,14 @@ def judge_cli(rc, out, err, must_reject):
     return ("cli:abnormal-exit", "command-line run ended with status %s without a diagnostic: %s" % (rc, text.strip().splitlines()[-1:] ))
 
 
-def twin_diff(x, y):
+def twin_diff(x, y, cfg=None):
+    # a tolerance of exactly 0: the setters store "disabled", the parser keeps 0.  Neither can ever stop the iteration, but with
+    # every tolerance disabled no residual history is kept (reduction factor reported as the neutral 1.0), with a zero tolerance
+    # "enabled" it is - the two paths then report different, individually well-defined reduction factors; not compared
+    # (and in the combined extrapolation mode the smoother switch, which needs that history, happens on one path only: different
+    # iterates) - for such configurations only the option getters are compared
+    skip = {"rho", "its", "e2", "einf", "sol"} if cfg is not None and (cfg.get("abstol") == 0.0 or cfg.get("reltol") == 0.0) else set()
+
     def norm(k, v):
         # a tolerance of exactly 0 can never be met: the setters store it as 'disabled' (-1), the parser keeps it as 0 - the same
         # stopping behaviour, only the getter differs
@@ -178,7 +185,7 @@ def twin_diff(x, y):
             return "off"
         return v
     return [k for k in sorted(set(x) | set(y)) if (k.startswith("g_") or k in ("its", "rho", "e2", "einf", "sol", "levels", "nr", "nt"))
-            and norm(k, x.get(k)) != norm(k, y.get(k))]
+            and k not in skip and norm(k, x.get(k)) != norm(k, y.get(k))]
 
 
 def main(tier):
@@ -278,7 +285,7 @@ def main(tier):
                           (y.get("status"), y.get("what") or gl.crash_line(y.get("stderr")), " ".join(cli_args(cfgs[i]))),
                           {"config": cfgs[i], "entry": "cli-vs-api", "argv0": twin_prior.get(i)})
             continue
-        diff = twin_diff(x, y)
+        diff = twin_diff(x, y, cfgs[i])
         if diff:
             rep.violation("cli-vs-api:%s" % diff[0], "configured through setParameters(argc, argv) the solver differs from the same options set through the "
                           "setters in %s (e.g. %s: %s vs %s)  [gmgpolar %s]" % (diff, diff[0], y.get(diff[0]), x.get(diff[0]), " ".join(cli_args(cfgs[i]))),
@@ -353,7 +360,7 @@ def replay(path):
             if rp.get("argv0"):
                 ex["argv0"] = rp["argv0"]
             y = gl.run_cases(b["rel"], [("r1", gl.line_of("r1", cfg, **ex))]).get("r1", {})
-            outs.append((x.get("status"), y.get("status"), twin_diff(x, y) if x.get("status") == "ok" and y.get("status") == "ok" else []))
+            outs.append((x.get("status"), y.get("status"), twin_diff(x, y, cfg) if x.get("status") == "ok" and y.get("status") == "ok" else []))
         if outs[0] != outs[1]:
             print("replay is not deterministic; refusing to report")
             return 2
